@@ -52,6 +52,14 @@ func gen(r *vh.Rand) string {
 	var prevVals []string
 	var prevNames []string
 	sizeOp := func() {
+		if r.Chance(1, 10) {
+			// shrink by the limit, raise the limit again, then set a large maximum: the update must still
+			// announce the small size (fixes/C30-limit-minsize.md)
+			big := []int{4096, allowed}[r.Intn(2)]
+			ops = append(ops, "l:"+strconv.Itoa(r.Range(0, 120)), "l:"+strconv.Itoa(allowed), "m:"+strconv.Itoa(big))
+			curMax = big
+			return
+		}
 		var v int
 		switch r.Intn(8) {
 		case 0:
